@@ -47,7 +47,7 @@ def plan(tier, seed):
         specs.append({"family": "arr_kinds", "first": first, "L": 6 if q else 8, "seed": seed, "n": 1})
     specs += shards("docs", 2000 if q else 100000, 250 if q else 4000, seed)
     specs += shards("noisy", 3000 if q else 150000, 500 if q else 5000, seed)
-    specs += [{"family": "corpus", "seed": seed, "n": 1}]
+    specs += [{"family": "corpus", "seed": seed, "n": 1}, {"family": "w0", "seed": seed, "n": 1}]
     specs += shards("listings", 600 if q else 30000, 150 if q else 3000, seed)
     return specs
 
@@ -133,6 +133,9 @@ def run_shard(spec, M):
             r = rng(spec["seed"], ID, "noisy", i)
             L = noisy.gen(r, 40)
             check_lines(L, M, {"kind": "lines", "L": L})
+    elif fam == "w0":
+        from .base import run_repo_tests_under_monitors
+        run_repo_tests_under_monitors(M, G_DECIDING)
     elif fam == "corpus":
         for g in corpus.good():
             if g["tokens"] is None:
